@@ -21,6 +21,8 @@ EXPLANATION = (
 
 
 def run(ctx: Ctx) -> None:
+    from .c12 import rule_reach_whole_dag
+    rule_reach_whole_dag(ctx)
     from ..rules import memo as _memo
     _memo.rule_memo_sound(ctx, ['graphiq/solvers/evolutionary_solver.py', 'graphiq/solvers/hybrid_solvers.py'])
     solvers.rule_twoqubit(ctx)
